@@ -317,6 +317,18 @@ def _s_forall_element(s):
         return False
 
 
+def _s_temp_make(s):
+    # a method that returns another object of its module, called on a temporary receiver: the variable gets the new object
+    s.new()
+    s.b = s.new()
+
+
+def _s_forall_temp(s):
+    # the loop keeps a temporary table of its own: its objects go when the loop is done
+    s.new()
+    s.new()
+
+
 def _s_failing_body(s):
     if not s.t:
         return False
@@ -372,6 +384,10 @@ STMTS = {
     "temp-table-put": ("t = tab(2, a).put(0, b);", _s_temp_put),
     "temp-tuple-set": ("u = tup(1, a).set@2(b);", _s_temp_tuple),
     "forall-element": ("tt2 = tab(2, t); forall e in tt2.at(1) loop zz = e.get(); end loop; forall e in tt2.at(0) desc loop zz = e.id(); end loop; tt2 = null;", _s_forall_element),
+    "temp-make": ("b = vmod(7).make();", _s_temp_make),
+    "temp-make-chain": ("b = vmod(7).self().make();", _s_temp_make),
+    "forall-temp": ("forall e in tab(2, vmod(9)) loop zz = e.get(); end loop;", _s_forall_temp),
+    "forall-temp-break": ("forall e in tab(2, vmod(9)) desc loop zz = e.get(); break; end loop;", _s_forall_temp),
     "forall-failing-body": ("forall e in t loop zz = vmod(11).get(); raise efail; end loop;", _s_failing_body),
 }
 FAILING = {"forall-refused-temp", "forall-refused-var", "forall-failing-body", "failing-callee-unhandled"}
